@@ -146,7 +146,48 @@ def run(ck):
             for x, y in ((a, b), (b, a)):
                 if key_of_it(x) and const_str(y) is not None:
                     cmps[n["id"]] = (const_str(y), n.get("op"))
-    compared = sorted({v[0] for v in cmps.values()})
+    # membership tests of the key in a constant table (QSet/QStringList/array literal, std::any_of/find over it), possibly
+    # inside a helper that was spliced in:  if (isDedicated(it.key())) continue;
+    members = {}
+
+    def const_table(x):
+        x = skip_copies(x)
+        if isinstance(x, dict) and x.get("k") == "call" and x.get("args") and strip_tmpl(x.get("callee") or "").split("::")[-1] in ("begin", "cbegin", "end", "cend") :
+            x = skip_copies(x["args"][0]) if x.get("ck") != "member" else skip_copies(x.get("obj"))
+        if not (isinstance(x, dict) and x.get("k") == "ref"):
+            return None
+        gv = F.globals.get(x.get("decl"))
+        init = gv.get("init") if gv else None
+        if init is None:
+            _, lv_ = local_var(fn, x.get("decl"))
+            init = lv_.get("init") if lv_ else None
+        vals = [const_str(e) for e in walk(init)] if isinstance(init, dict) else []
+        vals = [v for v in vals if v is not None]
+        return set(vals) if vals else None
+
+    def membership(n, depth=0):
+        n = skip_copies(n)
+        if not isinstance(n, dict) or depth > 3:
+            return None
+        if n.get("k") == "call" and n.get("inl_value") is not None and n["inl_value"] in fn.nodes:
+            if not any(key_of_it(x) for a in n.get("args", []) for x in walk(a)):
+                return None
+            return membership(fn.nodes[n["inl_value"]], depth + 1)
+        if n.get("k") == "call" and strip_tmpl(n.get("callee") or "") in ("std::any_of", "std::find", "std::find_if", "std::count", "std::binary_search") and n.get("args"):
+            return const_table(n["args"][0])
+        if n.get("k") == "call" and name_is(n.get("callee"), ("contains", "count")) and n.get("ck") == "member":
+            return const_table(n.get("obj"))
+        if n.get("k") == "binop" and n.get("op") in ("!=", "==") and any(strip_tmpl(skip_copies(x).get("callee") or "") in ("std::find", "std::find_if") for x in (n.get("lhs"), n.get("rhs")) if isinstance(x, dict)):
+            for x in (n.get("lhs"), n.get("rhs")):
+                if strip_tmpl(skip_copies(x).get("callee") or "") in ("std::find", "std::find_if"):
+                    return const_table(skip_copies(x)["args"][0])
+        return None
+    for n in fn.calls():
+        if any(a.get("id") == loop["id"] for a in fn.ancestors(n)) and n.get("id") not in cmps:
+            ms_ = membership(n)
+            if ms_ and not any(x.get("id") in members for x in fn.ancestors(n)):
+                members[n["id"]] = ms_
+    compared = sorted({v[0] for v in cmps.values()} | {x for v in members.values() for x in v})
 
     def goes_to_extra(name):
         def atom(n):
@@ -154,6 +195,8 @@ def run(ck):
                 s, op = cmps[n["id"]]
                 eq = (s == name)
                 return eq if op == "==" else (not eq)
+            if n.get("id") in members:
+                return name in members[n["id"]]
             return None
         keep0 = g.projector(atom)
         keep = lambda e: keep0(e) and not (e.src == condsite and e.idx == 1)
@@ -187,6 +230,13 @@ def run(ck):
                 if x.get("k") == "ref" and x.get("dk") == "local":
                     x = deref_local(hf, x)
                 for y in walk(x):
+                    if y.get("k") == "call" and name_is(y.get("callee"), ("value", "operator*")) and not y.get("args") and y.get("obj") is not None:
+                        fy = skip_copies(deref_local(hf, y.get("obj")))     # it.value() with it = attrs.constFind(name)
+                        if is_call(fy, ("find", "constFind")) and fy.get("args"):
+                            a0 = skip_copies(fy["args"][0])
+                            for i, p_ in enumerate(hf.params):
+                                if a0.get("k") == "ref" and a0.get("decl") == p_["decl"]:
+                                    npi = i
                     if y.get("k") == "call" and name_is(y.get("callee"), ("value", "attribute", "operator[]", "take")) and y.get("args"):
                         a0 = skip_copies(y["args"][-1] if name_is(y.get("callee"), "operator[]") else y["args"][0])
                         for i, p_ in enumerate(hf.params):
@@ -202,7 +252,16 @@ def run(ck):
             gh = Graph(hf)
             hsite = gh.site_of(hs_["node"])
             namep = hf.params[npi]["decl"]
-            present_test = lambda n, namep=namep: is_call(n, ("contains", "hasAttribute")) and skip_copies(n).get("args") and is_ref_to(skip_copies(n)["args"][0], namep)
+            def present_test(n, namep=namep, hf=hf):
+                if is_call(n, ("contains", "hasAttribute")) and skip_copies(n).get("args") and is_ref_to(skip_copies(n)["args"][0], namep):
+                    return True
+                # it != attrs.constEnd() with it = attrs.constFind(name)
+                if isinstance(n, dict) and n.get("op") == "!=" and n.get("k") in ("call", "binop"):
+                    ops = n.get("args") or [n.get("lhs"), n.get("rhs")]
+                    ops = [skip_copies(deref_local(hf, o)) for o in ops if isinstance(o, dict)]
+                    if any(is_call(o, ("constEnd", "end", "cend")) for o in ops) and any(is_call(o, ("find", "constFind")) and o.get("args") and is_ref_to(o["args"][0], namep) for o in ops):
+                        return True
+                return False
             written_when_present = gh.must_pass({hsite}, keep=gh.projector(atom_eq(present_test, True)))
             guards = [describe(i.get("cond"))[:60] for i in hf.find(lambda n: n.get("k") == "if")]
             helper_slots.setdefault(nm, []).append({"node": c, "obj": tgt.get("decl"), "key": const_str(cargs[[i for i, p_ in enumerate(hf.params) if "QString" in p_.get("type", "") and i not in (npi,)][0]]) if len(cargs) > 2 else None,
@@ -323,14 +382,15 @@ def run(ck):
     s = single("level")
     if s:
         v = deref_local(fn, s["value"])
-        ok = is_call(v, "qtMsgTypeToSentryLevel") and is_call(v["args"][0], LM + "::type") and obj_is_param(skip_copies(v["args"][0]), fn, 0)
+        ok = is_call(v, "qtMsgTypeToSentryLevel") and is_call(deref_local(fn, v["args"][0]), LM + "::type") and obj_is_param(skip_copies(deref_local(fn, v["args"][0])), fn, 0)
         ck.ob("C18-O3", sitestr(fn, s["node"]), ok, "level = qtMsgTypeToSentryLevel(lmsg.type())" if ok else "level = %s" % describe(v), key="format|level")
     s = single("message")
     if s:
         v = skip_copies(s["value"])
         if v.get("k") == "ref":
             ms = [x for x in sets if x["obj"] == v["decl"] and x["key"] == "formatted"]
-            ok = len(ms) == 1 and is_call(ms[0]["value"], LM + "::message") and obj_is_param(skip_copies(ms[0]["value"]), fn, 0) and g.must_pass({g.site_of(ms[0]["node"])}) \
+            mv_ = skip_copies(deref_local(fn, ms[0]["value"])) if len(ms) == 1 else None
+            ok = len(ms) == 1 and is_call(mv_, LM + "::message") and obj_is_param(mv_, fn, 0) and g.must_pass({g.site_of(ms[0]["node"])}) \
                 and not g.can_reach(g.site_of(s["node"]), g.site_of(ms[0]["node"]))
             ck.ob("C18-O3", sitestr(fn, s["node"]), ok, "message.formatted = lmsg.message(), attached afterwards" if ok else
                   "message.formatted is %s" % ([describe(x["value"]) for x in ms] or "not set"), key="format|message-formatted")
@@ -381,8 +441,8 @@ def run(ck):
             ck.ob("C18-O3", sitestr(fn, s["node"]), order_ok, "fingerprint has exactly three entries appended in order before it is attached" if order_ok else
                   "fingerprint is built from %d appends (%d other mutations)" % (len(apps), len(others)), key="format|fingerprint-shape")
             if len(apps) == 3:
-                a0 = json_value_inner(apps[0]["args"][0])
-                ok0 = is_call(a0, "qtMsgTypeToSentryLevel") and is_call(a0["args"][0], LM + "::type")
+                a0 = skip_copies(deref_local(fn, json_value_inner(apps[0]["args"][0])))
+                ok0 = is_call(a0, "qtMsgTypeToSentryLevel") and is_call(deref_local(fn, a0["args"][0]), LM + "::type")
                 ck.ob("C18-O3", sitestr(fn, apps[0]), ok0, "fingerprint[0] = level" if ok0 else "fingerprint[0] = %s" % describe(a0), key="format|fingerprint-0")
                 a1 = json_value_inner(apps[1]["args"][0])
                 ok1 = False
@@ -392,8 +452,9 @@ def run(ck):
                     vn = resolve_value(a1, atom_eq(isE, False), fn)
                     ok1 = const_str(ve) == "default" and (is_ref_to(vn, catdecl) or (is_call(vn, "QString::fromLatin1") and is_call(vn["args"][0], LM + "::category")))
                 ck.ob("C18-O3", sitestr(fn, apps[1]), ok1, "fingerprint[1] = category, or 'default' when empty" if ok1 else "fingerprint[1] = %s" % describe(a1), key="format|fingerprint-1")
-                a2 = json_value_inner(apps[2]["args"][0])
-                ok2 = is_call(a2, "QString::left") and const_int(a2["args"][0]) == 100 and is_call(a2.get("obj"), LM + "::message") and obj_is_param(skip_copies(a2["obj"]), fn, 0)
+                a2 = skip_copies(deref_local(fn, json_value_inner(apps[2]["args"][0])))
+                a2o = skip_copies(deref_local(fn, a2.get("obj"))) if is_call(a2, "QString::left") else None
+                ok2 = is_call(a2, "QString::left") and const_int(a2["args"][0]) == 100 and is_call(a2o, LM + "::message") and obj_is_param(a2o, fn, 0)
                 cut = is_call(a2, ("QString::left", "QString::mid", "QString::right", "QString::chopped"))
                 ck.ob("C18-O3", sitestr(fn, apps[2]), True if ok2 else (False if cut or is_call(a2, LM + "::message") else None), "fingerprint[2] = message().left(100)" if ok2 else "fingerprint[2] = %s" % describe(a2), key="format|fingerprint-2")
         else:
